@@ -29,7 +29,7 @@ EXPLANATION = (
 )
 NOT_DECIDED = ["completeness / exactly-once over arbitrary trees and page sizes", "results of retries (value level)", "fnmatch and datetime.fromisoformat semantics"]
 TRUSTED = ["urllib raises HTTPError (an open response) for non-2xx answers when the transport is urlopen", "CFG with exceptional edges"]
-FLOORS = {"C18-IO": 2, "C18-ERR": 8, "C18-CLOSE": 2, "C18-CACHE": 2, "C18-STATE": 1, "C18-CMP": 8, "C18-PART": 8}
+FLOORS = {"C18-IO": 2, "C18-ERR": 8, "C18-CLOSE": 2, "C18-CACHE": 2, "C18-STATE": 1, "C18-CMP": 8, "C18-PART": 8, "C18-PROP": 9}
 
 
 def _family(ctx):
@@ -469,4 +469,82 @@ def rule_part(ctx: Ctx) -> RuleReport:
     return rep
 
 
-RULES = [rule_io, rule_err, rule_close, rule_cache, rule_state, rule_cmp, rule_part]
+def rule_prop(ctx: Ctx) -> RuleReport:
+    """A failed request fails the call: no handler on the listing / download path absorbs an error of the client's family."""
+    rep = RuleReport("C18-PROP", "errors of the client's family propagate: every handler that catches them re-raises on every path")
+    fam = _family(ctx)
+    cls, methods = _methods(ctx)
+    n_try = 0
+    # the walk: everything between the public listing calls and the transport wrapper. The transport layer (_send, _get_json,
+    # token / site lookup) converts foreign failures (C18-ERR, C18-CLOSE); _get_folder_by_path documents "None if not found" (404).
+    WALK = {"list_all_files", "list_files_filtered", "_walk_and_filter", "list_files_modified_since", "list_files_created_since",
+            "list_files_in_folder", "_walk_drive_items", "_get_folders_from_url", "_list_items_paginated", "_parse_file_item", "_build_children_url"}
+    missing = [w for w in WALK if w not in methods]
+    if missing:
+        raise AnalysisError(f"C18-PROP: listing methods vanished: {missing}")
+    for name, fi in methods.items():
+        tries = [n for n in walk_own(fi.node) if isinstance(n, ast.Try)]
+        n_try += len(tries)
+        if name not in WALK:
+            continue
+        rep.unit(fi.key)
+        if not tries:
+            rep.ok({"fn": fi.qual, "handlers": "none (failures of the requests below propagate)"})
+            continue
+        cfg = ctx.cfg(fi)
+        for t in tries:
+            for h in t.handlers:
+                names = _hnames(h)
+                catches_family = any(x in fam or x in ("Exception", "BaseException", "<bare>") for x in names)
+                if not catches_family:
+                    continue
+                rep.unit(fi.key)
+                # every path from the handler entry must end in a raise
+                starts = [nid for nid in cfg.nodes_of(h)] if hasattr(cfg, "nodes_of") else []
+                body_nodes = [nd.id for nd in cfg.nodes if nd.stmt is not None and any(nd.stmt is x or nd.ast is x for b in h.body for x in ast.walk(b))]
+                if not body_nodes:
+                    raise AnalysisError(f"C18-PROP: handler of {fi.qual} not found in the CFG")
+                body_set = set(body_nodes)
+                # exits of the handler region that are not raises: a successor outside the region that is not the raise exit
+                leaks = []
+                for nid in body_nodes:
+                    for sx in cfg.succ[nid]:
+                        if sx in body_set or sx == cfg.raise_exit:
+                            continue
+                        if cfg.elabel.get((nid, sx)) == "exc":
+                            continue
+                        # leaving through finally copies still counts: follow until exit / raise
+                        leaks.append((nid, sx))
+                real = []
+                for (nid, sx) in leaks:
+                    # does control reach the normal continuation (not only the raise exit)?
+                    seen, stack, normal = set(), [sx], False
+                    while stack:
+                        x = stack.pop()
+                        if x in seen:
+                            continue
+                        seen.add(x)
+                        nd = cfg.nodes[x]
+                        if nd.copy and nd.copy.startswith("exc"):
+                            continue
+                        if x == cfg.raise_exit:
+                            continue
+                        if not nd.copy:
+                            normal = True
+                            break
+                        stack.extend(cfg.succ[x])
+                    if normal:
+                        real.append((nid, sx))
+                if not real:
+                    rep.ok({"fn": fi.qual, "handler": "except " + ", ".join(names), "re-raises": "on every path"})
+                else:
+                    nid = real[0][0]
+                    rep.fail(Finding("C18-PROP", CL, fi.qual, "except " + ", ".join(names) + " does not re-raise: " + short(cfg.nodes[nid].ast or cfg.nodes[nid].stmt, 60),
+                                     f"{fi.qual} catches an error of the client's family and continues on some path: a failed request no longer fails the call, the listing is silently incomplete",
+                                     line=h.lineno))
+    if n_try < 3:
+        raise AnalysisError(f"C18-PROP: only {n_try} try statements in the client (3 confirmed)")
+    return rep
+
+
+RULES = [rule_prop, rule_io, rule_err, rule_close, rule_cache, rule_state, rule_cmp, rule_part]
